@@ -47,7 +47,12 @@ def run(ctx):
         "gate-failing datagrams, duplicates, reordering, reconnects, stale replays, other addresses using the same "
         "conv, Accept, server-side Close atomic or parked between its two steps, Listener.Close with its backlog drain) over ciphers "
         "nil/none(CRC)/aes/aes-gcm and listener FEC off/2+1/3+2; dialled sessions with 15 remote addresses x 24 "
-        "probe sources through the real read loop; the deterministic Close/reset interleaving. non-trivial = %s"
+        "probe sources through the real read loop; the deterministic Close/reset interleaving.  Every header field the "
+        "listener must not read (ts, wnd, una, frg of control segments, payload length 1..1000 and bytes, FEC seqid and "
+        "size, OOB seqid/size) is drawn from the whole range with the 2^16 / 2^31 / 2^32 boundaries preferred, sn from "
+        "{0, 1, 2^16, k*2^16, small, random}, FEC encoders start at a random group, raw datagrams with arbitrary cmd/frg "
+        "bytes next to the FEC type words are included, and real clients run with refTime shifted back by a random "
+        "0..2^32 ms (incl. a restart with a new conversation on the same address). non-trivial = %s"
         % (ex.get("orders_depth"), ex.get("random_cases"), ex.get("nontrivial_rule")))
     ctx.assumptions += [
         "session type, sess_new/sess_input/sess_conv and the integrity gate are parameters of every theorem; "
